@@ -248,14 +248,20 @@ impl W<'_> {
                 V::Inc => {
                     self.c.inc += 1;
                     self.c.p3_checked += 1;
-                    // P3b: without any quote or '#' in x a newline always ends the first unit,
-                    // so an input that contains one does not "end inside a unit"
-                    if x.contains(&b'\n') && !x.iter().any(|b| matches!(b, b'\'' | b'"' | b'#')) {
-                        let f = vec![("clause", "P3b-incomplete-although-the-unit-is-terminated".to_string())];
+                    // P3b: the first unit of x is over where the text-level scan (spec::lexscan: strings
+                    // by their quotes, blocks by '#', a non-zero digit, that many *digits* and the counted
+                    // payload) finds a ';' or a newline outside strings and blocks; an input that holds
+                    // such a byte does not "end inside a unit"
+                    if let Some(end) = mc::spec::lexscan::first_unit_end(x) {
+                        let hash = x[..end].contains(&b'#');
+                        let f = vec![
+                            ("clause", "P3b-incomplete-although-the-unit-is-terminated".to_string()),
+                            ("block_length_field_cut_short_by_the_terminator", hash.to_string()),
+                        ];
                         self.groups.add("P3", &f, (x.len(), x), || {
                             (
                                 json!({"clause": "P3b", "start": sname, "x": hex(x), "y": ""}),
-                                format!("P3b: start={sname} V(\"{}\")=Incomplete although x holds a newline outside any string or block", show(x)),
+                                format!("P3b: start={sname} V(\"{}\")=Incomplete although x holds a unit terminator (byte {end}) outside any string or block", show(x)),
                             )
                         });
                     }
@@ -336,7 +342,7 @@ fn replay(path: &str) -> ! {
                 }
                 _ => false,
             },
-            "P3b" => matches!(vx, V::Inc) && x.contains(&b'\n') && !x.iter().any(|b| matches!(b, b'\'' | b'"' | b'#')),
+            "P3b" => matches!(vx, V::Inc) && mc::spec::lexscan::first_unit_end(&x).is_some(),
             "P3" => match &vx {
                 V::Inc => {
                     let l = w["prefix_len"].as_u64().unwrap() as usize;
